@@ -348,6 +348,7 @@ typedef struct {
 	int dispatched;
 	uint64_t final_check_seq;	/* 0 = the call never looked at the publish address */
 	uint64_t start_seq;
+	uint64_t start_ev;
 } pass_t;
 
 static pass_t do_pass(void)
@@ -357,6 +358,7 @@ static pass_t do_pass(void)
 	last_dispatched = -1;
 	dispatch_count_in_pass = 0;
 	r.start_seq = simrt_points();
+	r.start_ev = ev;
 	in_call_sched = true;
 	sim_ev("pass", (int32_t)now, 0, 0);
 	r.wake = fibre_scheduler_next(now);
@@ -377,6 +379,18 @@ static pass_t do_pass(void)
 		}
 	sim_ev("pass.ret", r.dispatched, (int32_t)(r.wake - now), 0);
 	sim_ops(1);
+	/* Black-box form of "never oversleeps / never lost": a request that had been accepted
+	 * before this call even began is, on return, either dispatched, or still queued - and
+	 * then the scheduler must not tell the main loop to sleep.  (Not applied to free-running
+	 * threads, where a sender stalled between claim and send legitimately hides later
+	 * requests from the scheduler's emptiness test.) */
+	if (mode == SIMRT_IRQ && r.wake != now)
+		for (int x = 0; x < nfib; x++)
+			if (B[x].oblig && B[x].oblig <= r.start_ev)
+				sim_fail(sim_prop_is("C03") ? "C03" : "C06",
+					 sim_prop_is("C03") ? "WAKEUP_MISSED_IRQ:stuck" : "LOST_WAKEUP:stuck",
+					 "fibre_scheduler_next(0x%08x) returned 0x%08x (sleep) although the request for fibre %d accepted at event %llu, before the call began at event %llu, has neither been dispatched nor withdrawn",
+					 now, r.wake, x, (unsigned long long)B[x].oblig, (unsigned long long)r.start_ev);
 	if (r.dispatched == FS && B[FS].dispatches > 1)
 		sim_probe(P_TIMER_FIRED);
 	return r;
